@@ -594,4 +594,295 @@ Proof.
   rewrite Hc. apply firstn_skipn_mid; reflexivity.
 Qed.
 
+(* ------------------------------------------------------------------ a finished signal block decodes to its stream *)
+
+(* A-lz4: decompression inverts compression whenever the announced size is large enough *)
+Hypothesis lz_ok : forall d n, (length d <= n)%nat -> lz_decompress (lz_compress d) n = Some d.
+
+Lemma meta_encode_lt m : match em_comp m with Compressed len => len < 2 ^ 32 * 32 | Uncompressed => True end ->
+  meta_encode m < 2 ^ 64.
+Proof.
+  intros H. unfold meta_encode, ndiv_ceil, u32_wrap, signal_decompressed_len_div.
+  pose proof (states_num_lt4 (em_max m)). destruct (em_comp m) as [len|].
+  - assert (2 ^ 32 = 4294967296) by reflexivity. assert (2 ^ 64 = 18446744073709551616) by reflexivity. lia.
+  - assert (2 ^ 64 = 18446744073709551616) by reflexivity. lia.
+Qed.
+
+(* what collect_signal_meta_data + decompression recover from the region written by SignalEncoder::finish *)
+Lemma region_decodes se : se_data se <> [] -> N.of_nat (length (se_data se)) < 4294967264 ->
+  exists meta payload,
+    leb_read (region se) = Some (meta_encode meta, payload) /\
+    meta_decode (meta_encode meta) = Ok meta /\ em_max meta = se_max se /\
+    (match em_comp meta with
+     | Compressed ulen => of_option (lz_decompress payload (N.to_nat ulen))
+     | Uncompressed => Ok payload
+     end) = Ok (se_data se).
+Proof.
+  intros Hne Hlen. unfold region, se_finish.
+  destruct (se_data se) as [|d0 dr] eqn:Ed; [congruence|]. rewrite <- Ed in *.
+  destruct ((N.of_nat (length (se_data se)) <? min_size_to_compress) || skip_compression) eqn:Esmall.
+  - cbn [snd]. exists (mk_meta Uncompressed (se_max se)), (se_data se).
+    rewrite leb_roundtrip by (apply meta_encode_lt; exact I).
+    rewrite metadata_roundtrip_uncompressed. repeat split.
+  - destruct (Nat.leb_spec (length (se_data se)) (length (lz_compress (se_data se)) + 1)) as [Hle|Hgt]; cbn [snd].
+    + exists (mk_meta Uncompressed (se_max se)), (se_data se).
+      rewrite leb_roundtrip by (apply meta_encode_lt; exact I).
+      rewrite metadata_roundtrip_uncompressed. repeat split.
+    + destruct (metadata_roundtrip_compressed (se_max se) _ Hlen) as [Hrt Hbig].
+      exists (meta_compressed (se_max se) (N.of_nat (length (se_data se)))), (lz_compress (se_data se)).
+      rewrite leb_roundtrip.
+      * rewrite Hrt. repeat split. cbn [meta_compressed em_comp] in *.
+        rewrite lz_ok by lia. reflexivity.
+      * apply meta_encode_lt. cbn [meta_compressed em_comp].
+        unfold ndiv_ceil, u32_wrap, signal_decompressed_len_div.
+        assert (2 ^ 32 = 4294967296) by reflexivity. lia.
+Qed.
+
+(* ------------------------------------------------------------------ loading a signal from a list of blocks *)
+
+Definition block_of (sigs : list signal_encoder) (st : N) (ttb : list N) : block :=
+  let '(_, offs, data) := finish_signals lz_compress sigs [] in mk_block st ttb offs data.
+
+(* one finished block as seen from signal `id`: the encoders at finish time, the block's time
+   table, the encoder of the signal and the stream entries it holds *)
+Definition blk := (list signal_encoder * N * list N * signal_encoder * list sentry)%type.
+
+Definition blk_ok (id bits : nat) (x : blk) : Prop :=
+  let '(sigs, st, ttb, se, es) := x in
+  nth_error sigs id = Some se /\ se_data se = enc_stream es /\
+  Forall (wf_sentry (se_max se) bits) es /\ N.of_nat (length (se_data se)) < 4294967264.
+
+Definition blk_block (x : blk) : block := let '(sigs, st, ttb, _, _) := x in block_of sigs st ttb.
+
+(* the widest kind over the blocks that hold data of the signal (Reader::load_signal's max_states) *)
+Fixpoint blks_max (bl : list blk) : option states :=
+  match bl with
+  | [] => None
+  | (_, _, _, se, es) :: r =>
+    match es with
+    | [] => blks_max r
+    | _ => Some (match blks_max r with Some m => join (se_max se) m | None => se_max se end)
+    end
+  end.
+
+Fixpoint blks_spec (mx : states) (bits : nat) (bl : list blk) (off : N) (canon : list (N * list byte))
+  : list (N * list byte) :=
+  match bl with
+  | [] => canon
+  | (_, _, ttb, _, es) :: r =>
+    blks_spec mx bits r (u32_wrap (off + N.of_nat (length ttb))) (load_spec mx bits es off canon)
+  end.
+
+Lemma enc_stream_nil_iff es : enc_stream es = [] <-> es = [].
+Proof.
+  split; [|now intros ->]. destruct es as [|[[d l] p] r]; [reflexivity|].
+  unfold enc_stream. cbn [map concat enc_entry]. intros H. apply app_eq_nil in H as [H _].
+  apply app_eq_nil in H as [H _]. now apply leb_write_nonempty in H.
+Qed.
+
+Lemma enc_stream_length es : (length es <= length (enc_stream es))%nat.
+Proof.
+  induction es as [|[[d l] p] r IH]; [cbn; lia|]. unfold enc_stream in *. cbn [map concat enc_entry length].
+  rewrite !app_length. pose proof (leb_write_nonempty (d * 4 + states_num l)).
+  destruct (leb_write (d * 4 + states_num l)); [congruence|]. cbn [length]. lia.
+Qed.
+
+Definition meta_of (x : blk) (m : N * list byte * enc_meta) : Prop :=
+  let '(_, _, _, se, es) := x in
+  em_max (snd m) = se_max se /\
+  (match em_comp (snd m) with
+   | Compressed ulen => of_option (lz_decompress (snd (fst m)) (N.to_nat ulen))
+   | Uncompressed => Ok (snd (fst m))
+   end) = Ok (enc_stream es).
+
+(* collect_signal_meta_data: one entry per block that holds data of the signal, with the block's
+   time index offset *)
+Fixpoint metas_rel (bl : list blk) (off : N) (ms : list (N * list byte * enc_meta)) : Prop :=
+  match bl with
+  | [] => ms = []
+  | ((_, _, ttb, _, es) as x) :: r =>
+    match es with
+    | [] => metas_rel r (u32_wrap (off + N.of_nat (length ttb))) ms
+    | _ => match ms with
+           | [] => False
+           | m :: ms' => fst (fst m) = off /\ meta_of x m /\ metas_rel r (u32_wrap (off + N.of_nat (length ttb))) ms'
+           end
+    end
+  end.
+
+Lemma collect_meta_spec id bits : forall bl off, Forall (blk_ok id bits) bl ->
+  exists ms, collect_meta (map blk_block bl) id off = Ok ms /\ metas_rel bl off ms.
+Proof.
+  induction bl as [|x r IH]; intros off Hok.
+  - exists []. split; reflexivity.
+  - apply Forall_cons_iff in Hok as [Hx Hr]. destruct x as [[[[sigs st] ttb] se] es].
+    destruct Hx as (Hn & Hd & Hwf & Hlen).
+    cbn [map collect_meta blk_block]. unfold block_of.
+    pose proof (region_found sigs id se st ttb Hn) as Hrf.
+    destruct (finish_signals lz_compress sigs []) as [[sigs' offs] data].
+    cbn [b_tt]. destruct (IH (u32_wrap (off + N.of_nat (length ttb))) Hr) as (ms & Hcm & Hrel).
+    destruct es as [|e0 er].
+    + assert (Hreg : region se = []).
+      { unfold region, se_finish. rewrite Hd. reflexivity. }
+      rewrite Hreg in Hrf. rewrite Hrf. cbn [bind]. rewrite Hcm. cbn [bind].
+      exists ms. split; [reflexivity|exact Hrel].
+    + assert (Hne : se_data se <> []).
+      { rewrite Hd. intros E. apply enc_stream_nil_iff in E. discriminate. }
+      destruct (region_decodes se Hne Hlen) as (meta & payload & Hlr & Hmd & Hmax & Hdec).
+      destruct (region se) as [|b0 rr] eqn:Er; [cbn in Hlr; discriminate|].
+      destruct Hrf as (start & len & Hgo & Hfs). rewrite Hgo. cbn [bind]. rewrite Hcm. cbn [bind].
+      cbn [b_data]. rewrite Hfs, Hlr, Hmd. cbn [bind].
+      eexists. split; [reflexivity|]. cbn [metas_rel fst snd meta_of]. repeat split; try assumption.
+      now rewrite <- Hd.
+Qed.
+
+Lemma join_ge_l a b : states_num a <= states_num (join a b).
+Proof. rewrite join_num. lia. Qed.
+Lemma join_ge_r a b : states_num b <= states_num (join a b).
+Proof. rewrite join_num. lia. Qed.
+
+Lemma fold_join_ge (l : list (N * list byte * enc_meta)) : forall a,
+  states_num a <= states_num (fold_left (fun a x => join a (em_max (snd x))) l a) /\
+  Forall (fun x => states_num (em_max (snd x)) <= states_num (fold_left (fun a x => join a (em_max (snd x))) l a)) l.
+Proof.
+  induction l as [|x l IH]; intros a; cbn [fold_left]; [split; [lia|constructor]|].
+  destruct (IH (join a (em_max (snd x)))) as [H1 H2]. split.
+  - pose proof (join_ge_l a (em_max (snd x))). lia.
+  - constructor; [|exact H2]. pose proof (join_ge_r a (em_max (snd x))). lia.
+Qed.
+
+Lemma max_states_ge ms : Forall (fun x => states_num (em_max (snd x)) <= states_num (max_states_of ms)) ms.
+Proof.
+  destruct ms as [|[[o d] m] r]; [constructor|]. cbn [max_states_of].
+  destruct (fold_join_ge r (em_max m)) as [H1 H2]. constructor; [exact H1|exact H2].
+Qed.
+
+Lemma wf_sentry_mono mx mx' bits e : states_num mx <= states_num mx' -> wf_sentry mx bits e -> wf_sentry mx' bits e.
+Proof. destruct e as [[d l] p]. unfold wf_sentry, wf_entry. intros H [(Hb & Hle & Hl) Hlt]. repeat split; try assumption. lia. Qed.
+
+(* the per-block loop of Reader::load_signal over the collected blocks *)
+Lemma load_go_spec bits mx : (2 <= bits)%nat -> forall bl off ms acc canon,
+  metas_rel bl off ms ->
+  Forall (fun x : blk => let '(_, _, _, se, es) := x in
+            Forall (wf_sentry (se_max se) bits) es /\ (es <> [] -> states_num (se_max se) <= states_num mx)) bl ->
+  acc_rep (bpe_of mx bits) acc canon ->
+  exists acc', load_go lz_decompress (EncBits bits) mx ms acc = Ok acc' /\
+               acc_rep (bpe_of mx bits) acc' (blks_spec mx bits bl off canon) /\
+               la_strings acc' = la_strings acc.
+Proof.
+  intros Hb. induction bl as [|x r IH]; intros off ms acc canon Hrel Hwf Hrep.
+  - cbn in Hrel. subst ms. exists acc. repeat split; apply Hrep.
+  - apply Forall_cons_iff in Hwf as [Hx Hr]. destruct x as [[[[sigs st] ttb] se] es].
+    destruct Hx as [Hwfe Hmx]. cbn [metas_rel blks_spec] in *.
+    destruct es as [|e0 er].
+    + cbn [load_spec]. now apply IH.
+    + destruct ms as [|m ms']; [contradiction|]. destruct Hrel as (Hoff & [Hmax Hdec] & Hrel').
+      destruct m as [[o payload] meta]. cbn [fst snd] in *. subst o.
+      cbn [load_go]. rewrite Hdec. cbn [bind].
+      assert (Hwf' : Forall (wf_sentry mx bits) (e0 :: er)).
+      { eapply Forall_impl; [|exact Hwfe]. intros e. apply wf_sentry_mono. apply Hmx. discriminate. }
+      destruct (load_fixed_stream mx bits (e0 :: er) (S (length (enc_stream (e0 :: er)))) off acc canon Hwf' Hrep
+                  ltac:(pose proof (enc_stream_length (e0 :: er)); lia)) as (acc1 & H1 & H2 & H3).
+      rewrite H1. cbn [bind].
+      destruct (IH _ ms' acc1 _ Hrel' Hr H2) as (acc' & Ha & Hb' & Hc).
+      exists acc'. split; [exact Ha|]. split; [exact Hb'|congruence].
+Qed.
+
+Lemma metas_rel_max bl : forall off ms mx, metas_rel bl off ms ->
+  Forall (fun x => states_num (em_max (snd x)) <= states_num mx) ms ->
+  Forall (fun x : blk => let '(_, _, _, se, es) := x in es <> [] -> states_num (se_max se) <= states_num mx) bl.
+Proof.
+  induction bl as [|x r IH]; intros off ms mx Hrel Hall; [constructor|].
+  destruct x as [[[[sigs st] ttb] se] es]. cbn [metas_rel] in Hrel. destruct es as [|e0 er].
+  - constructor; [congruence|]. eapply IH; eassumption.
+  - destruct ms as [|m ms']; [contradiction|]. destruct Hrel as (_ & [Hmax _] & Hrel').
+    apply Forall_cons_iff in Hall as [Hm Hms]. constructor.
+    + intros _. now rewrite <- Hmax.
+    + eapply IH; eassumption.
+Qed.
+
+(* Reader::load_signal over any list of finished blocks: the loaded signal holds exactly the
+   canonical (de-duplicated, widened) entries of all blocks, in order, with each block's time
+   index offset added *)
+Theorem load_signal_blocks id bits bl : (2 <= bits)%nat -> Forall (blk_ok id bits) bl ->
+  exists mx,
+    Forall (fun x : blk => let '(_, _, _, se, es) := x in es <> [] -> states_num (se_max se) <= states_num mx) bl /\
+    load_signal lz_decompress (map blk_block bl) id (EncBits bits)
+    = Ok (mk_signal (map fst (blks_spec mx bits bl 0 []))
+                    (SigBits mx bits (snd (get_len_and_meta mx bits)) (bpe_of mx bits)
+                             (concat (map snd (blks_spec mx bits bl 0 []))))).
+Proof.
+  intros Hb Hok. destruct (collect_meta_spec id bits bl 0 Hok) as (ms & Hcm & Hrel).
+  exists (max_states_of ms).
+  pose proof (metas_rel_max bl 0 ms _ Hrel (max_states_ge ms)) as Hmx. split; [exact Hmx|].
+  unfold load_signal. rewrite Hcm. cbn [bind].
+  assert (Hwf : Forall (fun x : blk => let '(_, _, _, se, es) := x in
+            Forall (wf_sentry (se_max se) bits) es /\ (es <> [] -> states_num (se_max se) <= states_num (max_states_of ms))) bl).
+  { rewrite Forall_forall in *. intros x Hin. specialize (Hok x Hin). specialize (Hmx x Hin).
+    destruct x as [[[[sigs st] ttb] se] es]. destruct Hok as (_ & _ & Hw & _). split; assumption. }
+  destruct (load_go_spec bits (max_states_of ms) Hb bl 0 ms (mk_acc [] [] []) [] Hrel Hwf) as (acc & Hgo & (Hi & Hby & _) & _).
+  { repeat split; constructor. }
+  rewrite Hgo. cbn [bind]. unfold bpe_of.
+  destruct (get_len_and_meta (max_states_of ms) bits) as [bytes meta_byte]. cbn [fst snd].
+  now rewrite Hi, Hby.
+Qed.
+
 End Blocks.
+
+(* ------------------------------------------------------------------ what the loaded signal reports *)
+
+(* an abstract recorded value: time index, kind, symbols *)
+Definition aentry := (N * states * list N)%type.
+
+Definition aentry_ok (mx : states) (bits : nat) (a : aentry) : Prop :=
+  let '(_, l, syms) := a in length syms = bits /\ small_syms l syms /\ states_num l <= states_num mx.
+
+Definition wide_of (mx : states) (bits : nat) (a : aentry) : N * list byte :=
+  let '(t, l, syms) := a in (t, wide mx bits l (write_n_state_loop l syms 0 None)).
+
+Definition render_of (a : aentry) : outcome (N * value_kind * list byte) :=
+  let '(t, l, syms) := a in do c <- lookup_all (lookup_table l) syms; Ok (t, kind_of_states l, c).
+
+Lemma outcome_map_app {A B} (f : A -> outcome B) l1 l2 :
+  outcome_map f (l1 ++ l2) = do a <- outcome_map f l1; do b <- outcome_map f l2; Ok (a ++ b).
+Proof.
+  induction l1 as [|x l1 IH]; cbn [app outcome_map bind].
+  - destruct (outcome_map f l2); reflexivity.
+  - destruct (f x); cbn [bind]; try reflexivity. rewrite IH.
+    destruct (outcome_map f l1); cbn [bind]; try reflexivity.
+    destruct (outcome_map f l2); reflexivity.
+Qed.
+
+(* iter_changes over a loaded signal whose bytes are the widened entries of `abs` reports, for
+   every entry, its time index, the kind it was recorded with and its characters *)
+Theorem observe_entries mx bits (abs : list aentry) : (2 <= bits)%nat -> Forall (aentry_ok mx bits) abs ->
+  observe_signal (mk_signal (map fst (map (wide_of mx bits) abs))
+                            (SigBits mx bits (snd (get_len_and_meta mx bits)) (bpe_of mx bits)
+                                     (concat (map snd (map (wide_of mx bits) abs)))))
+  = outcome_map render_of abs.
+Proof.
+  intros Hb Hok. unfold observe_signal. cbn [s_idx s_data]. rewrite !map_length.
+  (* generalise over a prefix already consumed *)
+  assert (G : forall done todo, abs = done ++ todo ->
+            outcome_map (fun '(k, t) => do v <- get_value_at (SigBits mx bits (snd (get_len_and_meta mx bits)) (bpe_of mx bits)
+                                                   (concat (map snd (map (wide_of mx bits) abs)))) k; Ok (t, fst v, snd v))
+                        (combine (seq (length done) (length todo)) (map fst (map (wide_of mx bits) todo)))
+            = outcome_map render_of todo).
+  { intros done todo. revert done. induction todo as [|a todo IH]; intros done E; [reflexivity|].
+    cbn [length seq map combine outcome_map].
+    assert (Ha : aentry_ok mx bits a).
+    { rewrite Forall_forall in Hok. apply Hok. rewrite E. apply in_or_app. right. now left. }
+    destruct a as [[t l] syms]. destruct Ha as (Hl & Hs & Hle).
+    cbn [wide_of fst]. rewrite E at 1. rewrite !map_app, concat_app. cbn [map concat wide_of snd].
+    rewrite (entry_render mx bits l syms _ _ (length done) Hb Hl Hs Hle).
+    - cbn [render_of]. destruct (lookup_all (lookup_table l) syms); cbn [bind fst snd]; try reflexivity.
+      specialize (IH (done ++ [(t, l, syms)])). rewrite app_length in IH. cbn [length] in IH.
+      rewrite Nat.add_1_r in IH. rewrite IH by (rewrite <- app_assoc; exact E). reflexivity.
+    - clear -Hok E Hb. assert (Hd : Forall (aentry_ok mx bits) done).
+      { rewrite E in Hok. now apply Forall_app in Hok as [? _]. }
+      clear E Hok. induction done as [|[[t' l'] s'] done IH]; [reflexivity|].
+      apply Forall_cons_iff in Hd as [(Hl' & Hs' & Hle') Hd]. cbn [map concat wide_of snd length].
+      rewrite app_length, IH by assumption.
+      rewrite wide_length; [lia|]. repeat split; [lia|assumption|]. now rewrite packed_length, Hl'. }
+  specialize (G [] abs eq_refl). cbn [length] in G. exact G.
+Qed.
